@@ -778,3 +778,9 @@ def unit_test(case):
         "back = D().transform(enc).entries[0].fields[0].value\n"
         "assert back == t, (enc.entries[0].fields[0].value, back)\n"
     )
+
+
+def ENV_SHARDS(tier):
+    """The broad, cheap families: run again in a fresh interpreter per environment (engine.run_environments)."""
+    return [s for s in shards('quick') if s[0] in ("scope", "contain") or (s[0] == "rt" and s[1][0] <= 2)]
+
